@@ -2,7 +2,9 @@ package larking
 
 import (
 	"errors"
+	"strconv"
 
+	statuspb "google.golang.org/genproto/googleapis/rpc/status"
 	"google.golang.org/protobuf/proto"
 	"google.golang.org/protobuf/reflect/protoreflect"
 )
@@ -134,6 +136,15 @@ func vfPJAppend(b []byte, mr protoreflect.Message) ([]byte, bool) {
 			b = append(b, '"')
 			b = append(b, s...)
 			b = append(b, '"')
+		case fd.Kind() == protoreflect.EnumKind && !fd.IsList():
+			ev := fd.Enum().Values().ByNumber(v.Enum())
+			if ev == nil {
+				ok = false // numeric form of an unnamed value: outside the model
+			} else {
+				b = append(b, '"')
+				b = append(b, ev.Name()...)
+				b = append(b, '"')
+			}
 		case fd.Kind() == protoreflect.MessageKind && !fd.IsList() && !fd.IsMap():
 			var sub bool
 			b, sub = vfPJAppend(b, v.Message())
@@ -147,6 +158,31 @@ func vfPJAppend(b []byte, mr protoreflect.Message) ([]byte, bool) {
 }
 
 func vfPJMarshalAppend(b []byte, m proto.Message) ([]byte, error) {
+	if st, ok := m.(*statuspb.Status); ok {
+		// google.rpc.Status without details: {"code":N,"message":"..."} with zero members omitted
+		if len(st.Details) != 0 {
+			return nil, errVfJSON
+		}
+		b = append(b, '{')
+		if st.Code != 0 {
+			b = append(b, `"code":`...)
+			b = strconv.AppendInt(b, int64(st.Code), 10)
+		}
+		if st.Message != "" {
+			for i := 0; i < len(st.Message); i++ {
+				if !vfIsJSONPlain(st.Message[i]) {
+					return nil, errVfJSON // needs escaping: outside the model
+				}
+			}
+			if st.Code != 0 {
+				b = append(b, ',')
+			}
+			b = append(b, `"message":"`...)
+			b = append(b, st.Message...)
+			b = append(b, '"')
+		}
+		return append(b, '}'), nil
+	}
 	out, ok := vfPJAppend(b, m.ProtoReflect())
 	if !ok {
 		return nil, errVfJSON
